@@ -162,6 +162,13 @@ def absorb_kernel_helpers(F, is_kernel_candidate, max_depth=3, max_blocks=400, i
             for bi, t in sites:
                 inline_call(nb, bi, bodies[t['res']])
             depth += 1
+        # a helper that reports its outcome as a constant on each of its exits (`return false; .. true`) and is switched on by its
+        # caller: each exit is routed straight to the branch it selects
+        from .normalize import thread_constants
+        try:
+            thread_constants(F, nb)
+        except Exception:
+            pass
         nb['_facts'] = F
         nb['inlined'] = sorted(absorbed & {t.get('res') for b2 in [b] for bi, t in calls_in(b2)})
         new[q] = nb
